@@ -55,8 +55,9 @@ def plan(tier):
 # generation: recipes in the vocabulary of sim/values.py, homogeneous key families
 
 class Gen:
-    def __init__(self, r, sets=True, tuples=False, depth=3, width=5, share=0.15):
+    def __init__(self, r, sets=True, tuples=False, depth=3, width=5, share=0.15, mixed=False):
         self.r, self.sets, self.tuples, self.maxdepth, self.width, self.share = r, sets, tuples, depth, width, share
+        self.mixed = mixed       # sort_keys off: the keys of one mapping need not be mutually comparable
         self.n = 0
         self.open, self.done = [], []
         self.multi = 0
@@ -146,9 +147,19 @@ class Gen:
         k = r.randint(0, self.width)
         y = r.random()
         if y < 0.25:
-            out = ['list', [self.value(depth + 1) for _ in range(k)], cid]
+            out = [r.choice(['list', 'list', 'tuple']), [self.value(depth + 1) for _ in range(k)], cid]
         elif y < 0.8 or not self.sets:
-            ks = self.keys(self.family(), k)
+            if self.mixed and r.random() < 0.5:
+                ks, seen = [], []
+                for _ in range(k):
+                    for key in self.keys(self.family(), 1):
+                        pv = values.build(key)
+                        if not any(pv == q and type(pv) is type(q) or (pv == q) for q in seen):
+                            seen.append(pv)
+                            ks.append(key)
+                r.shuffle(ks)
+            else:
+                ks = self.keys(self.family(), k)
             out = ['dict', [[key, self.value(depth + 1)] for key in ks], cid]
             if len(ks) > 1:
                 self.multi += 1
@@ -194,7 +205,7 @@ def generate(seed, tier):
     dumper = r.choice(['SafeDumper', 'SafeDumper', 'CSafeDumper', 'CSafeDumper', 'Dumper', 'CDumper'])
     sort_keys = r.random() < 0.7
     g = Gen(rv, sets=sort_keys, tuples=dumper in ('Dumper', 'CDumper'), depth=r.choice([1, 2, 3, 4]), width=r.choice([2, 4, 6, 9]),
-            share=r.choice([0.0, 0.15, 0.3]))
+            share=r.choice([0.0, 0.15, 0.3]), mixed=not sort_keys)
     recipe = g.value(0)
     opts = gen_opts(r, dumper.startswith('C'))
     if not sort_keys:
